@@ -615,6 +615,30 @@ func (e *Env) runRPC() error {
 			} else {
 				e.Res.Notes = append(e.Res.Notes, fmt.Sprintf("step %d: no connection to rotate on", i))
 			}
+		case "bad-salt":
+			// salt rotation announced for a message nobody waits for: an unknown id (Push.Kind "unknown") or the id of
+			// an already answered request (Push.Kind "answered", tag in Push.Arg)
+			c := st.conn(step.Server)
+			if c == nil {
+				e.Res.Notes = append(e.Res.Notes, fmt.Sprintf("step %d: no connection to push on", i))
+				continue
+			}
+			id := step.Push.Arg
+			if step.Push.Kind == "answered" {
+				st.mu.Lock()
+				if l := st.pending[int(step.Push.Arg)]; len(l) > 0 {
+					id = l[len(l)-1].req.MsgID
+				}
+				st.mu.Unlock()
+			}
+			c.SetSalt(step.Salt)
+			e.Srv.LogNote("bad-salt", c, id, fmt.Sprintf("salt=%d for=%s", step.Salt, step.Push.Kind))
+			body := (&refsrv.W{}).U32(refsrv.IDBadServerSalt).I64(id).I32(1).I32(48).I64(step.Salt).B
+			if step.Push.InContainer {
+				c.SendContainer([]*refsrv.Item{{Body: body}})
+			} else {
+				c.Send(body, false)
+			}
 		case "new-session":
 			c := st.conn(step.Server)
 			if c != nil {
@@ -771,6 +795,9 @@ func inspectStall(blockedCallers int) *Stall {
 			if strings.Contains(g, "startReadingResponses") || strings.Contains(g, ".readMsg") {
 				if strings.Contains(head, "chan send") {
 					loopAt = firstFrame(g)
+				} else if st := lockState(head); st != "" {
+					// waiting for a lock that nobody releases is as final as a send nobody receives
+					loopAt = firstFrame(g) + " [" + st + "]"
 				} else {
 					loopAt = "not-blocked-in-send: " + head
 				}
@@ -785,6 +812,11 @@ func inspectStall(blockedCallers int) *Stall {
 	a1, c1, dump := look()
 	time.Sleep(300 * time.Millisecond)
 	a2, c2, _ := look()
+	if strings.Contains(a1, " [") && a1 == a2 {
+		// a lock can be contended for a moment: it has to stay that way for another second
+		time.Sleep(time.Second)
+		a2, c2, _ = look()
+	}
 	s := &Stall{LoopAt: a1, Blocked: c1, Dump: dump}
 	idle := func(a string) bool {
 		return strings.HasPrefix(a, "not-blocked") && (strings.Contains(a, "[select") || strings.Contains(a, "[IO wait") || strings.Contains(a, "[chan receive"))
@@ -798,6 +830,15 @@ func inspectStall(blockedCallers int) *Stall {
 		s.Verdict = "INCONCLUSIVE"
 	}
 	return s
+}
+
+func lockState(head string) string {
+	for _, st := range []string{"sync.Mutex.Lock", "sync.RWMutex.Lock", "sync.RWMutex.RLock", "semacquire", "sync.Cond.Wait", "sync.WaitGroup.Wait"} {
+		if strings.Contains(head, "["+st) {
+			return st
+		}
+	}
+	return ""
 }
 
 func firstFrame(g string) string {
